@@ -1,7 +1,7 @@
 (* C07: SIR_effective_degree_from_graph on the rho path starts at the manifold point Phi_ed(theta = 1, R = 0)
    (phiS0 = 1 - rho, phiR0 = 0): at theta = 1, phiS = 1 - rho, phiI = rho, phiR = 0 and the trinomial mixture collapses to
    S_{s,i} = (1-rho) N_{s+i} C(s+i,i) rho^i (1-rho)^s, which is what the wrapper tabulates (ed_rho_entry). *)
-From EoNV Require Import Prelude Graph Vec VecP Aux AuxP IC Wrappers ICP ICEbcm Pgf C07xPoly C07xHier C07xIC C07xCed C07xCedIC C07xEd Rhs Rhs2D Rhs2DP.
+From EoNV Require Import Prelude Graph Vec VecP Aux AuxP IC Wrappers ICP ICEbcm ICEd Pgf C07xPoly C07xHier C07xIC C07xCed C07xCedIC C07xEd Rhs Rhs2D Rhs2DP.
 From Coq Require Import Qpower Lqa Setoid Morphisms.
 
 Local Notation pw x k := (qpow x (Z.of_nat k)).
@@ -48,14 +48,20 @@ Proof. unfold c, fg_coeffs. rewrite pscale_length, Pk_coeffs_length. reflexivity
 Lemma ed_fg_rho tau gam : wf_ugraph g = true -> ~ D c 1 == 0 ->
   exists Ssi0 I0 R0, (forall full sv,
     SIR_effective_degree_from_graph g rq full sv = Ok (SIR_effective_degree Ssi0 I0 R0 full sv)) /\
-    veq (flatten Ssi0 ++ [R0]) (Phi_ed c N tau gam (fg_phiS0 r) fg_phiR0 1 0).
+    veq (flatten Ssi0 ++ [R0]) (Phi_ed c N tau gam (fg_phiS0 r) fg_phiR0 1 0) /\
+    msum Ssi0 + I0 + R0 == N.
 Proof.
   intros WG Hc. destruct (wf_ugraph_nodes g WG) as [_ NE].
   exists (sqmat g (ed_rho_entry g (1 - r) r)), (r * vsum (Nk_of g)), 0.
-  split.
-  - intros full sv. unfold SIR_effective_degree_from_graph, rq. cbn [rq_rho rq_I rq_R isSome andb]. rewrite !andb_false_r.
-    destruct (gnodes g) as [|x0 l] eqn:EG; [congruence|]. reflexivity.
-  - unfold Phi_ed. apply veq_app; [|constructor; [reflexivity|constructor]].
+  assert (HX : veq (flatten (sqmat g (ed_rho_entry g (1 - r) r)) ++ [0]) (Phi_ed c N tau gam (fg_phiS0 r) fg_phiR0 1 0)); [|split; [|split; [exact HX|]]].
+  3:{ destruct (ed_outputs_agree c N tau gam (fg_phiS0 r) fg_phiR0 1 0) as (P1 & _).
+      pose proof (drop_last_veq 1 _ _ HX) as D1. rewrite drop_last_app in D1 by reflexivity.
+      rewrite <- vsum_flatten, (vsum_veq _ _ D1), P1.
+      assert (Pc : peval c 1 == 1 - r) by (unfold c; rewrite <- (fg_psihat_poly g r 1 WG); unfold fg_psihat; apply (psihat1_rho g (1 - r) WG)).
+      rewrite Pc, (Nk_sum g). unfold N. ring. }
+  2:{ intros full sv. unfold SIR_effective_degree_from_graph, rq. cbn [rq_rho rq_I rq_R isSome andb]. rewrite !andb_false_r.
+      destruct (gnodes g) as [|x0 l] eqn:EG; [congruence|]. reflexivity. }
+  unfold Phi_ed. apply veq_app; [|constructor; [reflexivity|constructor]].
     rewrite Ssi_eval, c_length. unfold flatten, sqmat, classes, tab2, tab.
     set (K := S (gmaxdeg g)).
     assert (G : forall l, (forall s, In s l -> (s < K)%nat) ->
